@@ -101,6 +101,55 @@ func makeTextWF(r *Rng, g *GenRR) bool {
 	return true
 }
 
+// texts (with their wire form) that passed the single-record round trip; a record must also be re-readable when it
+// is one line of a zone, before and after other records
+type textWire struct {
+	txt  string
+	wire []byte
+}
+
+var c05Prev []textWire
+
+func c05InZone(c *Ctx, stream, tn string, cur textWire) {
+	if len(c05Prev) == 0 {
+		return
+	}
+	other := c05Prev[c.R.Intn(len(c05Prev))]
+	for _, order := range [][]textWire{{cur, other}, {other, cur}, {other, cur, other}} {
+		var sb strings.Builder
+		for _, e := range order {
+			sb.WriteString(e.txt)
+			sb.WriteByte('\n')
+		}
+		zone := sb.String()
+		out := guard(func() string {
+			zp := dns.NewZoneParser(strings.NewReader(zone), "", "")
+			k := 0
+			for rr, ok := zp.Next(); ok; rr, ok = zp.Next() {
+				if k >= len(order) {
+					return "too-many-records"
+				}
+				w, err := packRRBytes(rr)
+				if err != nil {
+					return "repack-error: " + err.Error()
+				}
+				if !bytes.Equal(w, order[k].wire) {
+					return fmt.Sprintf("record %d differs: %s", k, hx(w))
+				}
+				k++
+			}
+			if err := zp.Err(); err != nil {
+				return fmt.Sprintf("parse-error after %d records: %v", k, err)
+			}
+			if k != len(order) {
+				return fmt.Sprintf("%d records of %d", k, len(order))
+			}
+			return "ok"
+		})
+		c.Pred(stream, "text-in-zone:"+tn, zone, out == "ok", out, "ok", true)
+	}
+}
+
 func c05Record(c *Ctx, stream string, g *GenRR) {
 	tn := dns.Type(g.Type).String()
 	in := fmt.Sprintf("type=%s wire=%s", tn, hx(g.Wire))
@@ -137,6 +186,15 @@ func c05Record(c *Ctx, stream string, g *GenRR) {
 	})
 	c.Hit("text:" + tn)
 	c.Pred(stream, "text-roundtrip:"+tn, in+" text="+txt, out == "ok", out, "ok", true)
+	if out == "ok" {
+		cur := textWire{txt, append([]byte{}, g.Wire...)}
+		c05InZone(c, stream, tn, cur)
+		if len(c05Prev) < 64 {
+			c05Prev = append(c05Prev, cur)
+		} else {
+			c05Prev[c.R.Intn(64)] = cur
+		}
+	}
 	// the text uses only RFC 1035 master-file syntax: printable ASCII, balanced quotes, one line
 	okSyntax := !strings.ContainsAny(txt, "\n\r") && strings.Count(strings.ReplaceAll(strings.ReplaceAll(txt, "\\\\", ""), "\\\"", ""), "\"")%2 == 0
 	for i := 0; i < len(txt); i++ {
